@@ -61,8 +61,32 @@ def models():
         id = sa.Column(sa.Integer, primary_key=True, autoincrement=False)
         ls = orm.relationship("L", secondary=lr, back_populates="rs")
 
+    # adjacency-list node (self-referential FK: the mapper sits in a unit-of-work cycle) that also carries a UNIDIRECTIONAL
+    # self-referential many-to-many: the association rows are handled by the per-state path of _ManyToManyDP
+    glinks = sa.Table("glinks", Base.metadata,
+                      sa.Column("src_id", sa.Integer, sa.ForeignKey("g.id"), primary_key=True),
+                      sa.Column("dst_id", sa.Integer, sa.ForeignKey("g.id"), primary_key=True))
+
+    class G(Base):
+        __tablename__ = "g"
+        id = sa.Column(sa.Integer, primary_key=True, autoincrement=False)
+        parent_id = sa.Column(sa.Integer, sa.ForeignKey("g.id"), nullable=True)
+        parent = orm.relationship("G", remote_side=[id])
+        related = orm.relationship("G", secondary=glinks, primaryjoin=id == glinks.c.src_id, secondaryjoin=id == glinks.c.dst_id)
+
+    # unidirectional one-to-many (no many-to-one side): only the one-to-many processor synchronises the FK
+    class UP(Base):
+        __tablename__ = "up"
+        id = sa.Column(sa.Integer, primary_key=True, autoincrement=False)
+        kids = orm.relationship("UC")
+
+    class UC(Base):
+        __tablename__ = "uc"
+        id = sa.Column(sa.Integer, primary_key=True, autoincrement=False)
+        up_id = sa.Column(sa.Integer, sa.ForeignKey("up.id"), nullable=True)
+
     orm.configure_mappers()
-    _M.update(Base=Base, Node0=Node0, Node1=Node1, A=A, B=B, L=L, R=R, lr=lr)
+    _M.update(Base=Base, Node0=Node0, Node1=Node1, A=A, B=B, L=L, R=R, lr=lr, G=G, glinks=glinks, UP=UP, UC=UC)
     return _M
 
 
@@ -364,6 +388,154 @@ def _m2m_case(h, rng):
     return s, ["l", "r", "lr"], intended, "many-to-many association"
 
 
+def _gm2m_case(h, rng):
+    """cyclic mapper + unidirectional many-to-many: a committed tree of 3-4 nodes with `related` links; the batch unlinks members,
+    deletes nodes (after unlinking them everywhere and re-parenting their children), links, re-parents and adds nodes"""
+    G = h.m["G"]
+    s = h.orm.Session(h.engine, autoflush=False)
+    n0 = rng.randint(3, 4)
+    nodes = {}
+    for i in range(1, n0 + 1):
+        nodes[i] = G(id=i, parent=(nodes[rng.randint(1, i - 1)] if i > 1 and rng.random() < 0.85 else None), related=[])
+    for i in nodes:
+        for j in nodes:
+            if i != j and rng.random() < 0.45:
+                nodes[i].related.append(nodes[j])
+    s.add_all(nodes.values())
+    s.commit()
+    for x in nodes.values():
+        x.parent, x.related
+    dead = set()
+    linked = set()     # nodes that received a NEW link in this batch are not deleted in it (intended final state stays unambiguous)
+    nxt = n0 + 1
+
+    def ancestors(x):
+        out = set()
+        while x.parent is not None and x.parent.id not in out:
+            x = x.parent
+            out.add(x.id)
+        return out
+
+    for _ in range(rng.randint(2, 5)):
+        live = [x for x in nodes.values() if x.id not in dead]
+        op = rng.choice(["unlink", "unlink+delete", "unlink+delete", "link", "move", "new"])
+        if op == "unlink" and live:
+            a = rng.choice(live)
+            if a.related:
+                a.related.remove(rng.choice(list(a.related)))
+        elif op == "unlink+delete":
+            cand = [x for x in live if x not in s.new and id(x) not in linked]
+            if cand:
+                b = rng.choice(cand)
+                for a in live:
+                    if b in a.related:
+                        a.related.remove(b)          # every holder lets go of b ...
+                for c in live:
+                    if c.parent is b:
+                        c.parent = b.parent if (b.parent is not None and b.parent.id not in dead) else None
+                dead.add(b.id)
+                s.delete(b)                            # ... and b is deleted in the same flush (b keeps its own parent and links)
+        elif op == "link" and len(live) >= 2:
+            a, b = rng.sample(live, 2)
+            if b not in a.related:
+                a.related.append(b)
+                linked |= {id(a), id(b)}
+        elif op == "move" and len(live) >= 2:
+            a, b = rng.sample(live, 2)
+            if a.id not in ancestors(b) and a is not b:
+                a.parent = b
+        elif op == "new" and nxt <= 5 and live:
+            p = rng.choice(live)
+            nodes[nxt] = G(id=nxt, parent=p, related=[])
+            s.add(nodes[nxt])
+            if rng.random() < 0.6:
+                t = rng.choice(live)
+                nodes[nxt].related.append(t)
+                linked |= {id(nodes[nxt]), id(t)}
+            nxt += 1
+    intended = []
+    for x in nodes.values():
+        if x.id in dead:
+            continue
+        par = x.parent
+        intended.append({"t": "g", "pk": str(x.id), "cols": [{"col": "parent_id", "val": "null" if par is None or par.id in dead else str(par.id)}]})
+        for y in x.related:
+            if y.id not in dead:
+                intended.append({"t": "glinks", "pk": "%d-%d" % (x.id, y.id),
+                                 "cols": [{"col": "dst_id", "val": str(y.id)}, {"col": "src_id", "val": str(x.id)}]})
+    return s, ["g", "glinks"], intended, "cyclic mapper with unidirectional many-to-many"
+
+
+def _uni_o2m_case(h, rng):
+    """unidirectional one-to-many: new parents with new children, moves between collections, removals, deletes"""
+    UP, UC = h.m["UP"], h.m["UC"]
+    s = h.orm.Session(h.engine, autoflush=False)
+    ps = {i: UP(id=i, kids=[]) for i in (1, 2)}
+    cs = {i: UC(id=i) for i in (1, 2, 3)}
+    for c in cs.values():
+        if rng.random() < 0.7:
+            ps[rng.choice((1, 2))].kids.append(c)
+    s.add_all(list(ps.values()) + list(cs.values()))
+    s.commit()
+    for p in ps.values():
+        p.kids
+    dead = set()
+    np_, nc_ = 3, 4
+    for _ in range(rng.randint(2, 5)):
+        lp = [p for p in ps.values() if ("p", p.id) not in dead]
+        lc = [c for c in cs.values() if ("c", c.id) not in dead]
+        op = rng.choice(["newp", "newc", "move", "remove", "delc", "delp"])
+        holder = lambda c: next((p for p in lp if c in p.kids), None)
+        if op == "newp" and np_ <= 3:
+            ps[np_] = UP(id=np_, kids=[])
+            cs[nc_] = UC(id=nc_)
+            ps[np_].kids.append(cs[nc_])
+            s.add(ps[np_])
+            np_ += 1
+            nc_ += 1
+        elif op == "newc" and nc_ <= 5 and lp:
+            cs[nc_] = UC(id=nc_)
+            rng.choice(lp).kids.append(cs[nc_])
+            nc_ += 1
+        elif op == "move" and lc and len(lp) >= 1:
+            c = rng.choice(lc)
+            old = holder(c)
+            new = rng.choice(lp)
+            if old is not new:
+                if old is not None:
+                    old.kids.remove(c)
+                new.kids.append(c)
+        elif op == "remove" and lc:
+            c = rng.choice(lc)
+            old = holder(c)
+            if old is not None:
+                old.kids.remove(c)
+        elif op == "delc":
+            cand = [c for c in lc if c not in s.new and c in s]
+            if cand:
+                c = rng.choice(cand)
+                old = holder(c)
+                if old is not None:
+                    old.kids.remove(c)
+                dead.add(("c", c.id))
+                s.delete(c)
+        elif op == "delp":
+            cand = [p for p in lp if p not in s.new]
+            if cand:
+                p = rng.choice(cand)
+                for c in list(p.kids):
+                    p.kids.remove(c)
+                dead.add(("p", p.id))
+                s.delete(p)
+    intended = [{"t": "up", "pk": str(p.id), "cols": []} for p in ps.values() if ("p", p.id) not in dead and p in s]
+    for c in cs.values():
+        if ("c", c.id) in dead or c not in s:
+            continue
+        hp = next((p for p in ps.values() if ("p", p.id) not in dead and c in p.kids), None)
+        intended.append({"t": "uc", "pk": str(c.id), "cols": [{"col": "up_id", "val": "null" if hp is None else str(hp.id)}]})
+    return s, ["up", "uc"], intended, "unidirectional one-to-many"
+
+
 def generate(chk, rng, n, start_id):
     import warnings
     h = Harness(os.path.join(chk.work, "shapes"))
@@ -371,17 +543,19 @@ def generate(chk, rng, n, start_id):
         chk.machinery("calibration: PRAGMA foreign_keys is not ON for the shapes engine")
     out = []
     stats = {}
-    makers = [lambda: _tree_case(h, rng, "Node0"), lambda: _tree_case(h, rng, "Node1"), lambda: _cycle_case(h, rng), lambda: _m2m_case(h, rng)]
+    makers = [lambda: _tree_case(h, rng, "Node0"), lambda: _tree_case(h, rng, "Node1"), lambda: _cycle_case(h, rng), lambda: _m2m_case(h, rng),
+              lambda: _gm2m_case(h, rng), lambda: _uni_o2m_case(h, rng)]
     seen = set()
     import json
     for i in range(n):
-        h.wipe(["lr", "n0", "n1", "a", "b", "l", "r"])
+        h.wipe(["lr", "glinks", "uc", "n0", "n1", "a", "b", "l", "r", "g", "up"])
         h.recording = False
         try:
             s, names, intended, shape = makers[i % len(makers)]()
         except Exception as e:      # the committed starting graph (plain inserts of a consistent graph) could not be flushed
             shape = ["self-referential tree (default cascade)", "self-referential tree (all cascade)", "mutual FK cycle with post_update",
-                     "many-to-many association"][i % len(makers)] + ", starting graph"
+                     "many-to-many association", "cyclic mapper with unidirectional many-to-many",
+                     "unidirectional one-to-many"][i % len(makers)] + ", starting graph"
             st = stats.setdefault(shape, {"flushes": 0, "ok": 0, "integrity_error": 0, "statements": 0})
             st["flushes"] += 1
             st[type(e).__name__] = st.get(type(e).__name__, 0) + 1
